@@ -42,15 +42,7 @@ func phiEdgeCond(c *Ctx, phi *ssa.Phi, i int) DNF {
 	}
 	for si, s := range pred.Succs {
 		if s == phi.Block() {
-			for _, l := range c.edgeLits(pred, si) {
-				if v, known := c.constLit(l); known {
-					if !v {
-						return dnfFalse()
-					}
-					continue
-				}
-				d = d.andLit(l)
-			}
+			d = c.edgeCond(conds, pred, si, d)
 			break
 		}
 	}
